@@ -97,11 +97,19 @@ def build(spec):
     user_raises = spec.get('call', {}).get('user_raises', False)
     call_elem = spec.get('call', {}).get('key_elem')
 
+    ignore = spec.get('ignore')
+
     def F(x):
         calls.append(x)
         if user_raises and x == arg_of(call_elem):
             raise UserErr(x)
         return val(x)
+
+    if ignore is not None:
+        F1 = F
+
+        def F(x, verbose=None):         # noqa: F811  (the ignored parameter exists only in the ignore configuration)
+            return F1(x)
 
     unhash = set(spec.get('unhashable', []))
 
@@ -150,6 +158,8 @@ def build(spec):
         c = ka.cache(archive=A)
         c.__swap__ = S
     kwargs = dict(cache=c, keymap=RK())
+    if ignore is not None:
+        kwargs['ignore'] = ignore       # a bare string naming a parameter, as klepto's documentation writes it
     if spec['cls'] not in ('no_cache', 'inf_cache'):
         kwargs['maxsize'] = spec['maxsize']
         kwargs['purge'] = spec['purge']
@@ -165,6 +175,11 @@ def build(spec):
     def key_of(e):
         if se is not None and e == se and sentinel is not None:
             return sentinel
+        if ignore is not None:
+            # the storage key as the key path defines it (the real _keygen and the raw keymap; their own behaviour is C09-C11)
+            import klepto._inspect as ki
+            a2, k2 = ki._keygen(F, ignore, arg_of(e))
+            return km.keymap()(*a2, **k2)
         return ('x', arg_of(e))
 
     def fill(target, d):
@@ -456,6 +471,10 @@ def eval_inv(name, spec, sg, ctx):
     if name.startswith('Inv_val'):
         which = name[name.index('[') + 1:-1]
         d = {'mem': sg.mem, 'A': sg.A, 'S': sg.S}[which]
+        if spec.get('ignore') is not None:
+            # keys carry the ignored parameter too: x is the value that follows the name 'x' in the flat raw key
+            return all(isinstance(v, tuple) and v and v[0] == 'R' and isinstance(k, tuple) and 'x' in k and
+                       v == ctx['val'](k[k.index('x') + 1]) for k, v in d.items())
         return all(isinstance(v, tuple) and v and v[0] == 'R' and isinstance(k, tuple) and len(k) == 2 and
                    v == ctx['val'](k[1]) for k, v in d.items())
     if name == 'Inv_lfu':
@@ -485,6 +504,13 @@ def spec_of(spec0, w, ctx):
             return 'se'
         if isinstance(k, tuple) and len(k) == 2 and k[0] == 'x' and isinstance(k[1], int):
             return k[1] - BASE
+        if spec0.get('ignore') is not None:
+            for e in range(int(spec0.get('universe', 3)) + 2):
+                try:
+                    if ctx['key_of'](e) == k:
+                        return e
+                except Exception:      # noqa
+                    pass
         raise KeyError(k)
     try:
         out = dict(spec0)
